@@ -41,7 +41,7 @@ func freeCall(x *core.X, ins ssa.Instruction) (cmd string, ok bool) {
 }
 
 func checkC03(p *core.Prog, r *core.Report) {
-	r.Explanation = "Decides structural necessary conditions of exactly-one-reply: (R1) on every path of LockDB.Lock/UnLock (with the helpers that finish a request inlined) the request is answered exactly once, or not at all with exactly one recorded deferral (queued as waiter, ack pending, retry recursion, hand-over); (R2) the asynchronous repliers doTimeOut/doExpried/DoAckLock reply only after a test-and-set of the hold's tombstone inside one shard-mutex section, at most once per path, with the hold's own command and protocol loaded under the mutex; (R3) wakeUpWaitLock/cancelWaitLock tombstone the wait before releasing the mutex and replying; (R4) the text protocol delivers a reply only when its RequestId equals the connection's current lockRequestId; (R5) no pooled command is freed twice or freed while a live hold retains it, on any path; (R6) the text protocol zeroes that request-id filter before it hands a reply to its connection, on every path (a later notice for the same request cannot become a second answer). NOT decided: races between goroutines beyond the mutex/tombstone premises, delivery order on the wire, routing through ProxyServerProtocol (C18)."
+	r.Explanation = "Decides structural necessary conditions of exactly-one-reply: (R1) on every path of LockDB.Lock/UnLock (with the helpers that finish a request inlined) the request is answered exactly once, or not at all with exactly one recorded deferral (queued as waiter, ack pending, retry recursion, hand-over); (R2) the asynchronous repliers doTimeOut/doExpried/DoAckLock reply only after a test-and-set of the hold's tombstone inside one shard-mutex section, at most once per path, with the hold's own command and protocol loaded under the mutex; (R3) wakeUpWaitLock/cancelWaitLock tombstone the wait before releasing the mutex and replying; (R4) the text protocol delivers a reply only when its RequestId equals the connection's current lockRequestId; (R5) no pooled command is freed twice or freed while a live hold retains it, on any path; (R6) the text protocol zeroes that request-id filter before it hands a reply to its connection, on every path (a later notice for the same request cannot become a second answer); (R7) UpdateLockedLock makes the request's command the hold's command on every path, which is the summary R5 uses for that call. NOT decided: races between goroutines beyond the mutex/tombstone premises, delivery order on the wire, routing through ProxyServerProtocol (C18)."
 	r.Assumptions = []string{
 		"Go type checker, go/ssa and VTA call graph are correct for /repo",
 		"a reply is a call of a method named ProcessLockResultCommand[Locked]",
@@ -53,6 +53,7 @@ func checkC03(p *core.Prog, r *core.Report) {
 	c03R4(p, r)
 	c03R5(p, r)
 	c03R6(p, r)
+	c03R7(p, r)
 }
 
 // finishing helpers: they answer or hand over the request they are given.
@@ -647,4 +648,56 @@ func c03R6(p *core.Prog, r *core.Report) {
 func isZeroValue(v ssa.Value) bool {
 	c, ok := v.(*ssa.Const)
 	return ok && c.Value == nil
+}
+
+// ---------------------------------------------------------------------------
+// R7: R5 models LockManager.UpdateLockedLock as "the request's command becomes
+// the hold's command" - that is what its callers rely on when they return the
+// hold's previous command to the connection's pool afterwards. The summary has
+// to be true on every path of the function, otherwise the hold keeps pointing
+// at a pooled command that the next request on the connection overwrites
+// (its later notice goes out under a foreign request id, a foreign LockId can
+// release it).
+func c03R7(p *core.Prog, r *core.Report) {
+	const rule = "C03/R7"
+	r.Rule(rule, "LockManager.UpdateLockedLock stores the new command into the hold's command field on every path (the summary C03/R5 uses for this call)", 1)
+	fn := mustFunc(p, r, "server.(*LockManager).UpdateLockedLock")
+	if fn == nil || len(fn.Params) < 3 {
+		return
+	}
+	lock, cmd := fn.Params[1].Name(), fn.Params[2].Name()
+	cmdKey := fk("server.Lock", "command")
+	n := 0
+	ex := core.NewExplorer(p, core.Hooks{
+		Instr: func(x *core.X) {
+			if st, ok := x.Ins.(*ssa.Store); ok {
+				if k, ok := storeKey(st.Addr); ok && k == cmdKey {
+					if fa, ok := st.Addr.(*ssa.FieldAddr); ok && core.Plain(x.Canon(fa.X).S) == lock {
+						if core.Plain(x.Canon(st.Val).S) == cmd {
+							x.Set("swapped", "1")
+						} else {
+							x.Set("swapped", "")
+						}
+					}
+				}
+			}
+		},
+		Exit: func(x *core.X, rets []core.Expr) {
+			n++
+			key := "server.(*LockManager).UpdateLockedLock: hold adopts the new command"
+			if x.Get("swapped") == "1" {
+				r.Hold(rule, key, x.Pos(), "lock.command = command on this path")
+			} else {
+				r.Violate(rule, key, x.Pos(), "UpdateLockedLock returns on a path that leaves the hold's command field on the previous command: its callers free that command afterwards, so the live hold references a pooled object the next request on the connection overwrites", x.St.Trace)
+			}
+		},
+	})
+	ex.NoHist = true
+	ex.Run(fn, nil)
+	if ex.Imprecise != "" {
+		r.Fail("C03/R7: %s", ex.Imprecise)
+	}
+	if n == 0 {
+		r.Fail("C03/R7: UpdateLockedLock has no return")
+	}
 }
